@@ -162,6 +162,10 @@ pub struct ArchOpts {
     /// (appending is the normal way to edit an archive; the last member of a path is the stored one)
     #[serde(default)]
     pub stale_duplicate: Option<u16>,
+    /// Some(k): afterwards one byte of the data of one stored zip member is flipped in a copy of the archive
+    /// (bit rot): reading that member must fail, never return bytes the tree does not hold
+    #[serde(default)]
+    pub damage: Option<u16>,
 }
 
 #[derive(Debug, Clone)]
@@ -242,6 +246,30 @@ pub fn make_zip(m: &Model, o: &ArchOpts) -> Vec<u8> {
         }
     }
     w.finish().expect("zip finish").into_inner()
+}
+
+/// Flips one byte inside the data of one member that is stored verbatim exactly once in the archive.
+/// Returns the damaged copy and the member, or None if no member qualifies.
+pub fn damage_zip(m: &Model, o: &ArchOpts, zbytes: &[u8], k: u16) -> Option<(Vec<u8>, (String, String))> {
+    let find_all = |needle: &[u8]| -> Vec<usize> { zbytes.windows(needle.len()).enumerate().filter(|(_, w)| *w == needle).map(|(i, _)| i).collect() };
+    let cands: Vec<(&(String, String), usize)> = m
+        .files
+        .iter()
+        .filter(|(_, b)| b.len() >= 8 && b.len() <= 4096)
+        .filter_map(|(key, b)| {
+            let at = find_all(b);
+            // the data of a stored member directly follows its name in the local header
+            let name = member_name(&key.0, Some(&key.1), o.dot_prefix, false);
+            (at.len() == 1 && at[0] >= name.len() && &zbytes[at[0] - name.len()..at[0]] == name.as_bytes()).then(|| (key, at[0] + b.len() / 2))
+        })
+        .collect();
+    if cands.is_empty() {
+        return None;
+    }
+    let (key, pos) = cands[k as usize % cands.len()];
+    let mut copy = zbytes.to_vec();
+    copy[pos] ^= 0x20;
+    Some((copy, key.clone()))
 }
 
 pub fn make_tar(m: &Model, o: &ArchOpts) -> Vec<u8> {
@@ -432,8 +460,9 @@ pub fn arch_opts_strategy() -> impl Strategy<Value = ArchOpts> {
         any::<u16>(),
         prop::bool::weighted(0.3),
         prop_oneof![3 => Just(None), 1 => any::<u16>().prop_map(Some)],
+        prop_oneof![2 => Just(None), 1 => any::<u16>().prop_map(Some)],
     )
-        .prop_map(|(order, dir_members, dot_prefix, deflate_mask, file_backed, stale_duplicate)| ArchOpts { order, dir_members, dot_prefix, deflate_mask, file_backed, stale_duplicate })
+        .prop_map(|(order, dir_members, dot_prefix, deflate_mask, file_backed, stale_duplicate, damage)| ArchOpts { order, dir_members, dot_prefix, deflate_mask, file_backed, stale_duplicate, damage })
 }
 
 pub fn tmpdir(tag: &str) -> PathBuf {
